@@ -879,7 +879,7 @@ Tier TierConfig(const std::string &tier) {
     t.gen_m = 4;
     t.gen_l = 0;
     t.byz = 120;
-    t.byz_space = 400000;
+    t.byz_space = 700000;
     t.tamper_max_events = 1500;
     t.tamper_sample = 400;
     t.corpus_max_len = 16384;
@@ -1189,6 +1189,11 @@ class Batch {
       op.kind = F_BYZ;
       op.a = static_cast<int64_t>(r.Next() >> 2);
       op.b = (j % 5) == 0 ? 0 : 1;
+      if ((j % 5) >= 3) {
+        // Two plans in five walk the stratified space in order.
+        op.b = 2;
+        op.a = static_cast<int64_t>((j / 5) * 2 + (j % 5) - 3);
+      }
       p.faults.push_back(op);
       if (r.Chance(1, 6)) {
         std::vector<const std::vector<uint8_t> *> none;
